@@ -910,3 +910,124 @@ Definition k_imp : kind := mkKind true true false false.
 Definition w_imp_pairs : list pair_info := [mkPair k_imp k_imp 2 4 0; mkPair k_imp k_imp 1 4 0].
 Theorem import_spacing_nonws_refuted : exists s ps, nonws (import_spacing s ps) <> nonws s.
 Proof. exists w_imp_text, w_imp_pairs. vm_compute. discriminate. Qed.
+
+(* ---------------------------------------------------------------------------------------------- *)
+(* the guards of the whole pre-pass can be checked on the INPUT text *)
+
+Lemma trailing_spaces : forall m n rest, trailing (repeat (SP, m) n ++ rest) = trailing rest.
+Proof. induction n as [| n IH]; intros rest; [reflexivity |]. cbn. apply IH. Qed.
+
+Lemma trailing_expandtabs : forall ts s col, trailing (expandtabs_from ts col s) = trailing s.
+Proof.
+  intros ts. induction s as [| [c m] tl IH]; intros col; [reflexivity |].
+  cbn [expandtabs_from]. destruct (is_tab c) eqn:Ht.
+  - rewrite trailing_spaces, IH. cbn. rewrite (tab_is_blank _ Ht). reflexivity.
+  - destruct (N.eqb c NL || N.eqb c CR); cbn; rewrite IH; reflexivity.
+Qed.
+
+Lemma g_trail_spaces : forall n rest, g_trail (repeat (SP, false) n ++ rest) = g_trail rest.
+Proof. induction n as [| n IH]; intros rest; [reflexivity |]. cbn. apply IH. Qed.
+
+Lemma g_trail_expandtabs : forall ts s col,
+  g_tab s = true -> g_trail (expandtabs_from ts col s) = g_trail s.
+Proof.
+  intros ts. induction s as [| [c m] tl IH]; intros col H; [reflexivity |].
+  unfold g_tab in H. cbn in H. apply andb_true_iff in H. destruct H as [Hc Htl].
+  cbn [expandtabs_from]. destruct (is_tab c) eqn:Ht.
+  - rewrite andb_true_r in Hc. apply negb_true_iff in Hc. subst m.
+    rewrite g_trail_spaces, (IH _ Htl). reflexivity.
+  - destruct (N.eqb c NL || N.eqb c CR); cbn [g_trail fst snd];
+      rewrite trailing_expandtabs, (IH _ Htl); reflexivity.
+Qed.
+
+(* run_ok only looks at the number of newlines of the run and at whether it holds a masked character *)
+Definition ok (e : bool) (k : nat) (m : bool) : bool := negb m || ((k <? 3) && (negb e || (k <? 2))).
+
+Fixpoint rf (k : nat) (m : bool) (s : text) : bool :=
+  match s with
+  | [] => ok true k m
+  | c :: tl => if is_space (fst c) then rf (if is_nl (fst c) then S k else k) (m || snd c) tl
+               else ok false k m && rf 0 false tl
+  end.
+
+Lemma count_nl_rev : forall run, count_nl (rev run) = count_nl run.
+Proof.
+  intros run. unfold count_nl. induction run as [| c run IH]; [reflexivity |].
+  cbn [rev]. rewrite filter_app, app_length. cbn [filter].
+  destruct (is_nl (fst c)); cbn [length]; unfold tchar in *; lia.
+Qed.
+
+Lemma existsb_rev' : forall {A} (f : A -> bool) l, existsb f (rev l) = existsb f l.
+Proof.
+  intros A f. induction l as [| a l IH]; [reflexivity |].
+  cbn [rev]. rewrite existsb_app, IH. cbn. rewrite orb_false_r. apply orb_comm.
+Qed.
+
+Lemma run_ok_state : forall e run, run_ok e (rev run) = ok e (count_nl run) (existsb snd run).
+Proof. intros. unfold run_ok, ok. rewrite count_nl_rev, existsb_rev'. reflexivity. Qed.
+
+Lemma runs_forall_rf : forall s run,
+  runs_forall run_ok run s = rf (count_nl run) (existsb snd run) s.
+Proof.
+  induction s as [| c tl IH]; intros run.
+  - cbn. apply run_ok_state.
+  - cbn [runs_forall rf]. destruct (is_space (fst c)) eqn:Hs.
+    + rewrite IH. unfold count_nl. cbn [filter existsb].
+      destruct (is_nl (fst c)); cbn [length]; f_equal. apply orb_comm. apply orb_comm.
+    + rewrite run_ok_state, IH. reflexivity.
+Qed.
+
+Lemma g_blank_rf : forall s, g_blank s = rf 0 false s.
+Proof. intros. unfold g_blank. rewrite runs_forall_rf. reflexivity. Qed.
+
+Lemma rf_spaces : forall n k m rest, rf k m (repeat (SP, false) n ++ rest) = rf k m rest.
+Proof.
+  induction n as [| n IH]; intros k m rest; [reflexivity |].
+  cbn [repeat app rf fst snd]. change (is_space SP) with true. change (is_nl SP) with false.
+  cbv iota. rewrite orb_false_r. apply IH.
+Qed.
+
+Lemma tab_space_not_nl : forall c, is_tab c = true -> is_space c = true /\ is_nl c = false.
+Proof. intros c H. unfold is_tab in H. apply N.eqb_eq in H. subst. split; reflexivity. Qed.
+
+Lemma rf_expandtabs : forall ts s col k m,
+  g_tab s = true -> rf k m (expandtabs_from ts col s) = rf k m s.
+Proof.
+  intros ts. induction s as [| [c b] tl IH]; intros col k m H; [reflexivity |].
+  unfold g_tab in H. cbn in H. apply andb_true_iff in H. destruct H as [Hc Htl].
+  cbn [expandtabs_from]. destruct (is_tab c) eqn:Ht.
+  - rewrite andb_true_r in Hc. apply negb_true_iff in Hc. subst b.
+    rewrite rf_spaces, (IH _ _ _ Htl). cbn [rf fst snd].
+    destruct (tab_space_not_nl _ Ht) as [H1 H2]. rewrite H1, H2, orb_false_r. reflexivity.
+  - destruct (N.eqb c NL || N.eqb c CR); cbn [rf fst snd];
+      destruct (is_space c); rewrite ?(IH _ _ _ Htl); reflexivity.
+Qed.
+
+Lemma blank_space_not_nl : forall c, is_blank c = true -> is_space c = true /\ is_nl c = false.
+Proof.
+  intros c H. split; [apply blank_is_space; exact H |].
+  destruct (is_nl c) eqn:E; [| reflexivity]. rewrite (nl_not_blank _ E) in H. discriminate.
+Qed.
+
+Lemma rf_rmspace : forall s k m, g_trail s = true -> rf k m (rmspace s) = rf k m s.
+Proof.
+  induction s as [| [c b] tl IH]; intros k m H; [reflexivity |].
+  cbn [g_trail fst snd] in H. apply andb_true_iff in H. destruct H as [Hc Htl].
+  cbn [rmspace fst]. destruct (is_blank c && trailing tl) eqn:Hd.
+  - rewrite <- andb_assoc, Hd, andb_true_r in Hc. apply negb_true_iff in Hc. subst b.
+    apply andb_true_iff in Hd. destruct Hd as [Hb _].
+    destruct (blank_space_not_nl _ Hb) as [H1 H2].
+    rewrite (IH _ _ Htl). cbn [rf fst snd]. rewrite H1, H2, orb_false_r. reflexivity.
+  - cbn [rf fst snd]. destruct (is_space c); rewrite ?(IH _ _ Htl); reflexivity.
+Qed.
+
+(* T11.2 for the whole pre-pass, with the three guards evaluated on the input *)
+Theorem prepass_lit_input : forall s,
+  g_tab s = true -> g_trail s = true -> g_blank s = true -> lit (prepass s) = lit s.
+Proof.
+  intros s H1 H2 H3. apply prepass_lit; [exact H1 | |].
+  - unfold expandtabs4. rewrite (g_trail_expandtabs _ _ _ H1). exact H2.
+  - rewrite g_blank_rf, rf_rmspace.
+    + unfold expandtabs4. rewrite (rf_expandtabs _ _ _ _ _ H1), <- g_blank_rf. exact H3.
+    + unfold expandtabs4. rewrite (g_trail_expandtabs _ _ _ H1). exact H2.
+Qed.
